@@ -327,6 +327,8 @@ def check_registry_order(prop: str, res: Result, repo: Repo):
     it = loops[0].iter if loops else None
     if isinstance(it, ast.BoolOp) and isinstance(it.op, ast.Or) and len(it.values) == 2 and isinstance(it.values[1], (ast.List, ast.Tuple)) and not it.values[1].elts:
         it = it.values[0]  # `given or []`
+    if isinstance(it, ast.IfExp) and isinstance(it.orelse, (ast.List, ast.Tuple)) and not it.orelse.elts and ast.unparse(it.test) == ast.unparse(it.body):
+        it = it.body  # the same default, spelled as a conditional
     if len(writers) == 1 and len(loops) == 1 and ast.unparse(it) == param:
         res.ok(rule, {"site": vi.where, "why": f"one loop over `{param}` fills the registry: insertion order = given order"}, nontrivial="regorder")
     else:
